@@ -103,7 +103,7 @@ func (c *corrCase) line() string {
 	var items []string
 	for _, a := range c.seq {
 		switch a.kind {
-		case 'r', 'e':
+		case 'r', 'e', 'x':
 			items = append(items, fmt.Sprintf("%c%d:%d", a.kind, a.nid, a.val))
 		case 'c':
 			items = append(items, "c")
@@ -280,6 +280,21 @@ func genCorr(r *rand.Rand, id, maxN int) *corrCase {
 			nid := cand[r.Intn(len(cand))]
 			c.seq = append(c.seq, perNode[nid][0])
 			perNode[nid] = perNode[nid][1:]
+		}
+		// the server behind one node dies at some point (x): a node that has already failed must not be
+		// reported a second time, a node that was still streaming fails once; nothing arrives from it afterwards
+		if len(live) > 0 && r.Intn(4) == 0 {
+			nid := live[r.Intn(len(live))]
+			p := r.Intn(len(c.seq) + 1)
+			var seq []corrItem
+			seq = append(seq, c.seq[:p]...)
+			seq = append(seq, corrItem{kind: 'x', nid: nid})
+			for _, a := range c.seq[p:] {
+				if a.nid != nid {
+					seq = append(seq, a)
+				}
+			}
+			c.seq = seq
 		}
 	} else {
 		r.Shuffle(len(live), func(i, j int) { live[i], live[j] = live[j], live[i] })
@@ -637,6 +652,21 @@ func runCorr(sh *shard, c *corrCase, expSnaps []string, sum *sumT) {
 	await(0)
 	next := map[uint32]int{}
 	cancelled := false
+	var crashed []uint32
+	defer func() {
+		// bring crashed servers back and wait until their nodes are used again
+		for _, nid := range crashed {
+			if err := sh.cl.Restart(int(nid - 1)); err != nil {
+				fatal(err)
+			}
+		}
+		for _, nid := range crashed {
+			node := sh.node(nid)
+			if !waitFor(6*time.Second, func() bool { return probe(node, 400*time.Millisecond) }) {
+				sh.caseFail(Mismatch{Property: "C10", Case: caseLine, Expected: fmt.Sprintf("node %d is used again after its server restarted", nid), Observed: "probe RPCs fail for 6s", Detail: strings.Join(signatures(goroutineDump()), "; ")}, true)
+			}
+		}
+	}()
 	for i, a := range c.seq {
 		// once the loop has returned (completed, or context ended) nothing more is consumed:
 		// the remaining arrivals are only released at the drain
@@ -648,6 +678,13 @@ func runCorr(sh *shard, c *corrCase, expSnaps []string, sum *sumT) {
 			cancel()
 			cancelled = true
 		case over:
+		case a.kind == 'x':
+			// the server behind this node dies; wait until the client has dealt with the failure of the stream
+			sh.cl.Stop(int(a.nid - 1))
+			crashed = append(crashed, a.nid)
+			node := sh.node(a.nid)
+			waitFor(2*time.Second, func() bool { return routers(node) == 0 })
+			time.Sleep(20 * time.Millisecond)
 		default:
 			before := sh.qs.LogLen()
 			s := scripts[a.nid]
